@@ -16,7 +16,9 @@ import (
 
 	"verif/mc/core"
 	"verif/mc/corpus"
+	"verif/mc/gen"
 	"verif/mc/hx"
+	"verif/mc/ref"
 	"verif/mc/vsync"
 )
 
@@ -208,7 +210,7 @@ func (w *c12World) key() string {
 		var b strings.Builder
 		// the node's former life (plain / XML / JSON) is part of the state: what a recycled node
 		// carries over must not matter, but that is exactly what is being checked
-		fmt.Fprintf(&b, "(%d", w.m[i].format)
+		fmt.Fprintf(&b, "(%d", w.m[i].format*10+int(w.m[i].typ))
 		for _, k := range w.m[i].kids {
 			b.WriteString(shape(k))
 		}
@@ -248,7 +250,13 @@ func c12Replay(ops []c12Op) (*c12World, string, int) {
 	return w, "", -1
 }
 
-func c12Successors(w *c12World, maxLive int) []c12Op {
+// c12Labels are the kinds of node a pass of the search creates: (node type, format)
+type c12Label struct{ typ, format int }
+
+var c12LabelsFormats = []c12Label{{int(idr.ElementNode), 0}, {int(idr.ElementNode), 1}, {int(idr.ElementNode), 2}}
+var c12LabelsTypes = []c12Label{{int(idr.ElementNode), 0}, {int(idr.DocumentNode), 0}, {int(idr.TextNode), 0}, {int(idr.AttributeNode), 0}}
+
+func c12Successors(w *c12World, maxLive int, labels []c12Label) []c12Op {
 	var ops []c12Op
 	live := []int{}
 	for i, m := range w.m {
@@ -265,8 +273,8 @@ func c12Successors(w *c12World, maxLive int) []c12Op {
 			}
 		}
 		for _, a := range answers {
-			for _, f := range []int{0, 1, 2} {
-				ops = append(ops, c12Op{Kind: "create", A: int(idr.ElementNode), B: a, Format: f})
+			for _, l := range labels {
+				ops = append(ops, c12Op{Kind: "create", A: l.typ, B: a, Format: l.format})
 			}
 		}
 	}
@@ -502,7 +510,7 @@ func init() {
 	core.Register(&core.Prop{
 		ID:    "C12",
 		Level: "model_checking",
-		Rule:  "E1: breadth-first search over all histories of CreateNode (plain / XML / JSON node; pool answer newest / fresh / oldest) . AddChild(any live node, any detached root) . RemoveAndReleaseTree(any live node) with at most 5 live nodes, deduplicated by canonical state (sorted forest shapes + pool size); after every operation the real links are compared with a slice-based mirror model, fresh nodes must be blank, pooled nodes reset and never live or duplicated, IDs never repeat (states and transitions counted). E2: every tree delivered through the Transform by all seven readers on corpus inputs and token strings is audited (links, acyclicity, pool membership) at every record and after the terminal result, also through the bare FormatReader whose caller never calls Release and calls Read twice more after the terminal result; a node released twice is caught by the shim pool; E2b: the XML and JSON stream readers on every document of up to 3 (thorough 4) nodes x 19 / 18 target xpaths (the document root itself with accepting / rejecting filters, children, descendants, nested candidates). E3: 2-3 threads each running a private create/add/remove history under the cooperative scheduler at every pool/atomic operation, preemption bound 2 (all schedules), plus a free-running -race pass of the same bodies",
+		Rule:  "E1: breadth-first search (one pass per label set) over all histories of CreateNode (element node in plain / XML / JSON format; second pass: plain node of type document / element / text / attribute; pool answer newest / fresh / oldest) . AddChild(any live node, any detached root) . RemoveAndReleaseTree(any live node) with at most 5 live nodes, deduplicated by canonical state (sorted forest shapes + pool size); after every operation the real links are compared with a slice-based mirror model, fresh nodes must be blank, pooled nodes reset and never live or duplicated, IDs never repeat (states and transitions counted). E2: every tree delivered through the Transform by all seven readers on corpus inputs and token strings is audited (links, acyclicity, pool membership) at every record and after the terminal result, also through the bare FormatReader whose caller never calls Release and calls Read twice more after the terminal result; a node released twice is caught by the shim pool; E2c: the csv2 / fixedlength2 hierarchy reader on every declaration hierarchy of up to 2 declarations (groups, nesting, (min,max) incl. min 2, every target position) x every line sequence up to 3 (thorough 4); E2b: the XML and JSON stream readers on every document of up to 3 (thorough 4) nodes x 19 / 18 target xpaths (the document root itself with accepting / rejecting filters, children, descendants, nested candidates). E3: 2-3 threads each running a private create/add/remove history under the cooperative scheduler at every pool/atomic operation, preemption bound 2 (all schedules), plus a free-running -race pass of the same bodies",
 		Assumptions: []string{
 			"the shim pool (vsync.Pool: LIFO free list with a choice of newest/fresh/oldest on Get) models sync.Pool's freedom to keep, drop and reorder cached objects; the free-running pass uses the real sync.Pool",
 			"the -race pass is not exhaustive over schedules; it relies on the detector's happens-before analysis (exhaustive:false for that part)",
@@ -564,48 +572,57 @@ func c12Run(c *core.Ctx) {
 	}
 	if c.Shard == 0 {
 		type item struct{ ops []c12Op }
-		seen := map[string]bool{}
-		frontier := []item{{nil}}
-		resetProcessState()
-		seen[(&c12World{ids: map[int64]bool{}}).key()] = true
-		states, transitions := 1, 0
-		for depth := 0; depth < maxOps && len(frontier) > 0; depth++ {
-			var next []item
-			for _, it := range frontier {
-				w, e, _ := c12Replay(it.ops)
-				if e != "" {
-					continue
-				}
-				for _, op := range c12Successors(w, maxLive) {
-					ops := append(append([]c12Op{}, it.ops...), op)
-					c.Begin(func() interface{} { return c12Case{Ops: ops} })
-					w2, e2, at := c12Replay(ops)
-					transitions++
-					c.Eval("E1|" + op.Kind)
-					if e2 != "" {
-						c.Violation(c12Sig(e2), fmt.Sprintf("history %v: after operation %d: %s", ops, at, e2), c12Case{Ops: ops},
-							func() string {
-								_, e3, _ := c12Replay(ops)
-								if e3 == "" {
-									return ""
-								}
-								return c12Sig(e3)
-							})
+		states, transitions := 0, 0
+		// two passes: nodes of the three formats (what a recycled node carries over from its former life),
+		// and plain nodes of every node type (no operation may treat a node by its type)
+		for pass, labels := range [][]c12Label{c12LabelsFormats, c12LabelsTypes} {
+			seen := map[string]bool{}
+			frontier := []item{{nil}}
+			resetProcessState()
+			seen[(&c12World{ids: map[int64]bool{}}).key()] = true
+			states++
+			for depth := 0; depth < maxOps && len(frontier) > 0; depth++ {
+				var next []item
+				for _, it := range frontier {
+					w, e, _ := c12Replay(it.ops)
+					if e != "" {
 						continue
 					}
-					k := w2.key()
-					if !seen[k] {
-						seen[k] = true
-						states++
-						next = append(next, item{ops})
+					for _, op := range c12Successors(w, maxLive, labels) {
+						ops := append(append([]c12Op{}, it.ops...), op)
+						c.Begin(func() interface{} { return c12Case{Ops: ops} })
+						w2, e2, at := c12Replay(ops)
+						transitions++
+						c.Eval("E1|" + op.Kind)
+						if e2 != "" {
+							c.Violation(c12Sig(e2), fmt.Sprintf("history %v: after operation %d: %s", ops, at, e2), c12Case{Ops: ops},
+								func() string {
+									_, e3, _ := c12Replay(ops)
+									if e3 == "" {
+										return ""
+									}
+									return c12Sig(e3)
+								})
+							continue
+						}
+						k := w2.key()
+						if !seen[k] {
+							seen[k] = true
+							states++
+							next = append(next, item{ops})
+						}
+					}
+					if c.TimeUp() {
+						break
 					}
 				}
-				if c.TimeUp() {
-					break
+				frontier = next
+				if pass == 0 {
+					c.Max("bfs_depth_completed", int64(depth+1))
+				} else {
+					c.Max("bfs_depth_completed_node_types_pass", int64(depth+1))
 				}
 			}
-			frontier = next
-			c.Max("bfs_depth_completed", int64(depth+1))
 		}
 		c.Count("states", int64(states))
 		c.Count("transitions", int64(transitions))
@@ -664,6 +681,57 @@ func c12Run(c *core.Ctx) {
 				c.Violation(sig, detail, c12Case{E2: &c01E2Case{Item: "c10/" + f.Name, Schema: f.Schema, Input: in}}, nil)
 			}
 			c.Eval("E2|c10/" + f.Name)
+		}
+	}
+	// E2c: the hierarchy reader (csv2 / fixedlength2) on every declaration hierarchy of up to 2 declarations
+	// (groups, nesting, every (min,max) incl. min 2, every target position) x every unit sequence up
+	// to 3 (thorough 4) over the declared names, a footer and an undeclared line: the runs that end in a
+	// min-occurs or unexpected-data failure with a record half put together are the point
+	{
+		occ := [][2]int{{0, 1}, {0, -1}, {1, 1}, {1, 2}, {2, 2}, {2, -1}}
+		maxLen := 3
+		if !c.Quick() {
+			maxLen = 4
+		}
+		alphabet := []string{"A", "B", "C", "E", "X"}
+		for _, driver := range []string{"csv2", "fixedlength2"} {
+			for nodes := 1; nodes <= 2; nodes++ {
+				gen.Hierarchies(gen.HierSpec{Nodes: nodes, Depth: 3, Names: []string{"A", "B", "C"}, Occ: occ}, func(_ int, decls []*ref.HDecl) bool {
+					idx++
+					if !c.Mine(idx) {
+						return true
+					}
+					work := fromJSONDecls(toJSONDecls(decls))
+					c05Adapt(work)
+					st := flatSchema(driver, work, false)
+					delete(c12Schemas, st) // (one schema per hierarchy: nothing to gain from keeping them)
+					delete(c12Factories, st)
+					names := make([]string, 0, maxLen)
+					gen.Sequences(len(alphabet), maxLen, func(seq []int) bool {
+						names = names[:0]
+						for _, x := range seq {
+							names = append(names, alphabet[x])
+						}
+						in := flatInput(driver, mkUnits(names), 0)
+						cs := c12Case{E2: &c01E2Case{Item: "hierarchy/" + driver, Schema: st, Input: in}}
+						c.Begin(func() interface{} { return cs })
+						sig, detail := c12E2(st, "hierarchy/"+driver, in)
+						c.Eval("E2c|" + driver)
+						c.Count("reader_inputs_audited", 1)
+						c.Count("E2c_hierarchy_reader_runs", 1)
+						if strings.HasPrefix(sig, "harness:") {
+							c.HarnessError(sig + detail + "\n" + st)
+							return false
+						} else if sig != "" {
+							c.Violation(sig, detail, cs, func() string { s, _ := c12E2(st, "hierarchy/"+driver, in); return s })
+						}
+						return true
+					})
+					delete(c12Schemas, st)
+					delete(c12Factories, st)
+					return !c.TimeUp()
+				})
+			}
 		}
 	}
 	// E2b: the two stream readers with every kind of target xpath (the document root itself, with a
